@@ -108,9 +108,6 @@ func realInput(in *Input, order int) (map[string]sarama.ConsumerGroupMemberMetad
 	return members, topics, nil
 }
 
-// Progress hook: set by the worker so that a hang or a fatal crash inside Plan is attributable.
-var beforePlan = func() {}
-
 // RunPlan performs ONE real Plan call on the input.
 func RunPlan(in *Input, order int) (out Outcome, engineErr error) {
 	members, topics, err := realInput(in, order)
@@ -118,7 +115,6 @@ func RunPlan(in *Input, order int) (out Outcome, engineErr error) {
 		return Outcome{}, err
 	}
 	st := strategy(in.Strat)
-	beforePlan()
 	func() {
 		defer func() {
 			if r := recover(); r != nil {
